@@ -62,7 +62,7 @@ def gen_palfile():
         raise ExtractError('xbinary.rs touches the palette at a site the whole-file model does not know '
                            f'(result.palette x{n_res}, expected 1; buf.palette x{n_buf}, expected 2)')
     # ADF
-    pin('Artworx::to_bytes palette', between(adf, 'let mut result = vec![1];', 'if buf.get_font_dimensions()', 'Artworx::to_bytes'),
+    pin('Artworx::to_bytes palette', between(adf, 'let mut result = vec![1];', 'if let Some(font) = buf.get_font(', 'Artworx::to_bytes'),
         'let mut result = vec![1]; result.extend(to_ega_data(&buf.palette));')
     pin('Artworx::load_buffer palette', between(adf, 'let palette_size = 3 * 64;', 'let font_size', 'Artworx::load_buffer'),
         'let palette_size = 3 * 64; result.palette = from_ega_data(&data[o..(o + palette_size)]); o += palette_size;')
